@@ -345,6 +345,17 @@ fn sandbox() -> &'static std::path::PathBuf {
             let (src, _) = textgen::program(&mut rng);
             std::fs::write(p.join(name), src).expect("sandbox file");
         }
+        // a long program (more lines than any program pane has rows, long labels and comments, data
+        // directives) so that the program display has to scroll and clip
+        let mut long = String::from("#! mrasm ; a long program\n*STACKSIZE 64\n    LDSP 0xEF\n");
+        for i in 0..70 {
+            if i % 7 == 0 {
+                long.push_str(&format!("A_RATHER_LONG_LABEL_NAME_NUMBER_{}:\n", i));
+            }
+            long.push_str(&format!("    INC R{} ; comment number {} which is quite a bit longer than the pane is wide, really, it goes on and on\n", i % 3, i));
+        }
+        long.push_str("LOOPX:\n    JR LOOPX\n    .DB 1, 2, 3, 0x04, 0b101\n    .DW 0x1234, 65535\n");
+        std::fs::write(p.join("long.asm"), long).expect("sandbox file");
         std::fs::write(p.join("bad.asm"), textgen::broken_program(&mut rng)).expect("sandbox file");
         std::fs::write(p.join("nonutf8.asm"), [0x23u8, 0x21, 0x20, 0xFF, 0xFE, 0x0A]).expect("sandbox file");
         std::env::set_current_dir(&p).expect("chdir sandbox");
@@ -352,7 +363,7 @@ fn sandbox() -> &'static std::path::PathBuf {
     })
 }
 
-pub const LOAD_TARGETS: [&str; 10] = ["good.asm", "progs/a.asm", "progs/b.asm", "progs/sub/c.asm", "with space.asm", "ümlaut.asm", "bad.asm", "nonutf8.asm", "missing.asm", "progs"];
+pub const LOAD_TARGETS: [&str; 11] = ["long.asm", "good.asm", "progs/a.asm", "progs/b.asm", "progs/sub/c.asm", "with space.asm", "ümlaut.asm", "bad.asm", "nonutf8.asm", "missing.asm", "progs"];
 
 fn key_of(name: &str) -> Option<KeyCode> {
     Some(match name {
@@ -501,7 +512,7 @@ fn run(scn: &Scn, ctx: &mut Ctx) -> Result<(), Violation> {
     // leftovers of an earlier (panicked) run on this worker thread
     let mut drain = Events::new();
     while drain.next().is_some() {}
-    let args = InteractiveArgs { program: if scn.preload { Some("good.asm".into()) } else { None }, init: InitialMachineConfiguration::default() };
+    let args = InteractiveArgs { program: if scn.preload { Some(if scn.autorun % 2 == 0 { "long.asm" } else { "good.asm" }.into()) } else { None }, init: InitialMachineConfiguration::default() };
     let tui = guard(|| Tui::new(&args)).map_err(|(l, m)| v("panic", 0, format!("Tui::new: panic at {}: {}", l, m)))?.map_err(|e| v("harness", 0, format!("Tui::new: {}", e)))?;
     let term = Session::new_term(scn.w, scn.h).map_err(|e| v("harness", 0, e))?;
     let mut s = Session { tui, term, w: scn.w, h: scn.h, autorun: scn.autorun, quit: false };
